@@ -102,7 +102,12 @@ def do_case(ctx, inp):
     table = list(all_assignments(lv)) if len(lv) <= 6 else assignments(ctx.rng, lv, 64)
     for s in table:
         want = truth(a, s)
-        got = o.evaluate(s).constant
+        try:
+            got = o.evaluate(s).constant
+        except Exception as e:
+            # a formula over the connectives evaluates to a truth value on every 0/1 assignment; an exception is no value
+            ctx.fail("evaluate-raised-on-a-total-assignment", {"sigma": s, "exception": f"{type(e).__name__}: {str(e)[:160]}", "truth_function": want})
+            return
         if got != want:
             ctx.fail("truth-table-row-wrong", {"sigma": s, "evaluate": None if got is None else int(got), "truth_function": want})
             break
